@@ -24,7 +24,7 @@ if [ -n "${EXISTING_TESTS:-}" ]; then
 fi
 git checkout -q -- . ; git clean -fdq -e SEEDED -e target
 for id in "$@"; do
-  line=$(VERIF_SEED=${VERIF_SEED:-} /verif/tools/lane.sh run "$LANE" $S/patch.diff "$id" 2>&1 | tail -1)
+  line=$(/verif/tools/lane.sh run "$LANE" $S/patch.diff "$id" 2>&1 | tail -1)
   rc=$(echo "$line" | sed -n 's/.* rc=\([0-9]*\) .*/\1/p')
   echo "CHECK $id rc=$rc ${line#* rc=$rc }" | tee -a $LOG
 done
